@@ -4,6 +4,7 @@ import IwModel.Model.Arr
 import IwModel.Model.Avl
 import IwModel.Model.Ring
 import IwModel.Model.XStr
+import IwModel.Model.XStrMem
 import IwModel.Model.Pool
 /-! `drv c18`: the container models behind the op-line protocol of harness/h_c18.c. -/
 namespace Drv.C18
@@ -22,7 +23,8 @@ structure St where
   av : Avl.Tree := .nil
   rbUs : Nat := 1
   rb : Option (Ring.Ring Bytes) := none
-  xs : Option XStr.XStr := none
+  xs : Option XStr.XStr := none          -- user data slot of the iwxstr
+  xm : Option XStr.XMem := none          -- its buffer, statement-level model
   po : Option Pool.Sys := none
 
 def joinWith (sep : String) (xs : List String) : String := sep.intercalate xs
@@ -106,10 +108,7 @@ def hmStep (s : St) (ws : List String) : St × String :=
 
 def unitOf (us : Nat) (h : String) : Bytes := ((hexArg h) ++ List.replicate us 0).take us
 
-def bytesLe : Bytes → Bytes → Bool
-  | [], _ => true
-  | _ :: _, [] => false
-  | a :: as, b :: bs => if a < b then true else if a > b then false else bytesLe as bs
+def bytesLe : Bytes → Bytes → Bool := Arr.UList.bytesLe
 
 def listStr (xs : List Bytes) : String := "[" ++ joinWith "," (xs.map hexOut) ++ "]"
 def ulDump (l : Arr.UList Bytes) : String := s!" s={l.start} a={l.anum} n={l.num} {listStr l.window}"
@@ -237,42 +236,61 @@ def rbStep (s : St) (ws : List String) : St × String :=
     | ["peek"] => (s, match Ring.peek r with | some x => s!"peek {hexOut x}" | none => "peek nil")
     | ["num"] => (s, s!"num {Ring.numCached r}")
     | ["clear"] => ({ s with rb := some (Ring.clear r) }, "clear")
-    | ["iter"] => (s, "iter" ++ String.join ((Ring.iterAll r).map fun x => s!" {hexOut x}"))
+    | ["iter"] => (s, "iter" ++ String.join ((Ring.iterList r).map fun x => s!" {hexOut x}"))
     | ["destroy"] => ({ s with rb := none }, "destroy leak=0")
     | _ => (s, "bad-op")
 
-def xsDump (x : XStr.XStr) : String :=
-  s!" size={x.data.length} asize={x.asize} {hexOut x.data} term={if x.term then 1 else 0}"
+def XJUNK : Nat := 256     -- an uninitialised cell: no byte value, in particular not a NUL
+
+def xsDump (x : XStr.XMem) : String :=
+  s!" size={x.size} asize={x.asize} {hexOut x.data} term={if x.term then 1 else 0}"
 def udFree (ids : List Nat) : String := freeStr (ids.map fun i => s!"u{i}")
 
+/-- the buffer of the iwxstr lives in the statement-level model `XStr.XMem` (a memory fault prints `FAULT`);
+the user-data slot in the abstract `XStr` -/
 def xsStep (s : St) (ws : List String) : St × String :=
   match ws with
-  | ["new", siz] => ({ s with xs := some (XStr.create (natArg siz)) }, "ok")
-  | ["wrap", h, as] => ({ s with xs := some (XStr.wrap (hexArg h) (natArg as)) }, "ok")
+  | ["new", siz] =>
+    (match XStr.mcreate XJUNK (natArg siz) with
+     | some m => ({ s with xs := some (XStr.create (natArg siz)), xm := some m }, "ok")
+     | none => (s, "FAULT"))
+  | ["wrap", h, as] =>
+    (match XStr.mwrap XJUNK (hexArg h) (natArg as) with
+     | some m => ({ s with xs := some (XStr.wrap (hexArg h) (natArg as)), xm := some m }, "ok")
+     | none => (s, "FAULT"))
   | _ =>
-  match s.xs with
-  | none => (s, "no-xstr")
-  | some x =>
+  match s.xs, s.xm with
+  | some x, some m =>
+    let upd (tag : String) (r : Option XStr.XMem) : St × String :=
+      match r with
+      | none => (s, "FAULT")
+      | some m' => ({ s with xm := some m' }, tag)
+    let updOk (tag : String) (r : Option (XStr.XMem × Bool)) : St × String :=
+      match r with
+      | none => (s, "FAULT")
+      | some (m', ok) => ({ s with xm := some m' }, s!"{tag} {err ok}")
     match ws with
-    | ["cat", h] => ({ s with xs := some (XStr.cat x (hexArg h)) }, "cat 0")
-    | ["cat2", h] => ({ s with xs := some (XStr.cat x (hexArg h)) }, "cat2 0")
-    | ["unshift", h] => ({ s with xs := some (XStr.unshift x (hexArg h)) }, "unshift 0")
-    | ["shift", n] => ({ s with xs := some (XStr.shift x (natArg n)) }, "shift")
-    | ["pop", n] => ({ s with xs := some (XStr.pop x (natArg n)) }, "pop")
-    | ["insert", p, h] => let (x', ok) := XStr.insert x (natArg p) (hexArg h); ({ s with xs := some x' }, s!"insert {err ok}")
-    | ["printf", h, v] => ({ s with xs := some (XStr.cat x (XStr.fmt (hexArg h) (intArg v))) }, "printf 0")
-    | ["iprintf", p, h, v] =>
-      let (x', ok) := XStr.insert x (natArg p) (XStr.fmt (hexArg h) (intArg v)); ({ s with xs := some x' }, s!"iprintf {err ok}")
-    | ["clear"] => ({ s with xs := some (XStr.clear x) }, "clear")
-    | ["setsize", n] => let x' := XStr.setSize x (natArg n); ({ s with xs := some x' }, s!"setsize 0 size={x'.data.length} asize={x'.asize}")
-    | ["clone"] => (s, "clone" ++ xsDump (XStr.clone x))
+    | ["cat", h] => upd "cat 0" (XStr.mcat XJUNK m (hexArg h) (hexArg h).length)
+    | ["cat2", h] => upd "cat2 0" (XStr.mcat XJUNK m (hexArg h) (hexArg h).length)
+    | ["unshift", h] => upd "unshift 0" (XStr.munshift XJUNK m (hexArg h) (hexArg h).length)
+    | ["shift", n] => upd "shift" (XStr.mshift m (natArg n))
+    | ["pop", n] => upd "pop" (XStr.mpop m (natArg n))
+    | ["insert", p, h] => updOk "insert" (XStr.minsert XJUNK m (natArg p) (hexArg h) (hexArg h).length)
+    | ["printf", h, v] =>
+      -- through the 1024-byte stack buffer / heap buffer switch of `iwxstr_printf_va`
+      upd "printf 0" (XStr.mprintf XJUNK m (XStr.fmt (hexArg h) (intArg v)))
+    | ["iprintf", p, h, v] => updOk "iprintf" (XStr.minsertPrintf XJUNK m (natArg p) (XStr.fmt (hexArg h) (intArg v)))
+    | ["clear"] => upd "clear" (XStr.mclear m)
+    | ["setsize", n] => let m' := XStr.msetSize XJUNK m (natArg n); ({ s with xm := some m' }, s!"setsize 0 size={m'.size} asize={m'.asize}")
+    | ["clone"] => (s, match XStr.mclone XJUNK m with | some c => "clone" ++ xsDump c | none => "FAULT")
     | ["ud", id] => let (x', f) := XStr.udSet x (natArg id); ({ s with xs := some x' }, "ud" ++ udFree f)
     | ["udget"] => (s, s!"udget {x.ud.getD 0}")
     | ["uddetach"] => let (x', id) := XStr.udDetach x; ({ s with xs := some x' }, s!"uddetach {id}")
-    | ["dump"] => (s, "dump" ++ xsDump x)
-    | ["destroy"] => ({ s with xs := none }, "destroy" ++ udFree (XStr.destroy x) ++ " leak=0")
-    | ["keep"] => ({ s with xs := none }, "keep ptr" ++ udFree (XStr.destroy x) ++ " leak=0")
+    | ["dump"] => (s, "dump" ++ xsDump m)
+    | ["destroy"] => ({ s with xs := none, xm := none }, "destroy" ++ udFree (XStr.destroy x) ++ " leak=0")
+    | ["keep"] => ({ s with xs := none, xm := none }, "keep ptr" ++ udFree (XStr.destroy x) ++ " leak=0")
     | _ => (s, "bad-op")
+  | _, _ => (s, "no-xstr")
 
 def poStat (p : Pool.Pool) : String := s!" usiz={p.usiz} asiz={p.asiz}"
 
@@ -296,14 +314,16 @@ def poStep (s : St) (ws : List String) : St × String :=
     | ["strndup", h, k] =>
       let b := (hexArg h).take (natArg k)
       allocOut "strndup" (b.length + 1) (" " ++ hexOut b)
-    | ["printf", h, v] => let b := XStr.fmt (hexArg h) (intArg v); allocOut "printf" (b.length + 1) (" " ++ hexOut b)
+    | ["printf", h, v] =>
+      let (size, b) := Pool.printfAlloc (XStr.fmt (hexArg h) (intArg v)); allocOut "printf" size (" " ++ hexOut b)
     | "copyarr" :: hs =>
       let v := hs.map hexArg
       if v.isEmpty then (s, "copyarr nil")
       else (setMain (Pool.copyArrAlloc p v), "copyarr" ++ String.join (v.map fun t => s!" {hexOut t}") ++ " end")
     | [op, h, c, w] =>
       if op == "split" ∨ op == "psplit" then
-        let toks := Pool.splitTokens (hexArg h) (hexArg c) (w == "1")
+        let toks := if op == "split" then Pool.splitTokens (hexArg h) (hexArg c) (w == "1")
+                    else Pool.printfSplit (hexArg h) (hexArg c) (w == "1")
         (setMain (Pool.splitAlloc p (hexArg h) toks), op ++ String.join (toks.map fun t => s!" {hexOut t}"))
       else if op == "calloc2" then (s, "bad-op")
       else (s, "bad-op")
@@ -318,17 +338,17 @@ def poStep (s : St) (ws : List String) : St × String :=
         let (q', u, o) := Pool.alloc q (natArg n)
         ({ s with po := some (Pool.setKid y (natArg c) q') }, s!"calloc2 {u}:{o}" ++ poStat q')
     | ["cud", c, id] =>
-      match Pool.kid y (natArg c) with
+      match Pool.kidUdSet y (natArg c) (natArg id) with
       | none => (s, "cud nochild")
-      | some q => ({ s with po := some (Pool.setKid y (natArg c) { q with ud := some (natArg id) }) }, "cud" ++ udFree q.ud.toList)
+      | some (y', f) => ({ s with po := some y' }, "cud" ++ udFree f)
     | ["cdestroy", c] =>
       match Pool.kid y (natArg c) with
       | none => (s, "cdestroy nochild")
       | some _ => let (y', f) := Pool.destroyKid y (natArg c); ({ s with po := some y' }, "cdestroy 1" ++ udFree f)
-    | ["ud", id] => (setMain { p with ud := some (natArg id) }, "ud" ++ udFree p.ud.toList)
+    | ["ud", id] => (setMain (Pool.udSet p (natArg id)).1, "ud" ++ udFree (Pool.udSet p (natArg id)).2)
     | ["udget"] => (s, s!"udget {p.ud.getD 0}")
-    | ["uddetach"] => (setMain { p with ud := none }, s!"uddetach {p.ud.getD 0}")
-    | ["ref"] => (setMain { p with refs := p.refs + 1 }, s!"ref {p.refs + 1}")
+    | ["uddetach"] => (setMain (Pool.udDetach p).1, s!"uddetach {p.ud.getD 0}")
+    | ["ref"] => ({ s with po := some (Pool.ref y) }, s!"ref {p.refs + 1}")
     | ["destroy"] =>
       match Pool.destroy y with
       | (y', none) => ({ s with po := some y' }, "destroy 0" ++ udFree [])
